@@ -159,13 +159,13 @@ def token_regions(cssutils, text, tk=None, encoding='utf-8', ident_form='either'
         if typ == 'STRING':
             cls = C.str_class(helper.stringvalue(val))
             if cls:
-                regs.add(kf_for_class(cls))
+                regs.add(kf_for_class(cls, 'STRING'))
         elif typ == 'URI':
             v = helper.urivalue(val)
             # @namespace writes its URI with helper.string whatever the source form was
             cls = C.str_class(v) if at == 'NAMESPACE_SYM' else C.uri_class(v)
             if cls:
-                regs.add(kf_for_class(cls))
+                regs.add(kf_for_class(cls, 'URI'))
         elif typ in ('IDENT', 'FUNCTION', 'HASH', 'UNICODE-RANGE', 'DIMENSION', 'ATKEYWORD'):
             verb, norm = ident_forms_ok(tk, typ, val)
             if typ in ('DIMENSION', 'ATKEYWORD', 'FUNCTION'):
@@ -199,8 +199,19 @@ def ident_forms_ok(tk, typ, val):
     return relex_same(tk, typ, val), (relex_same(tk, typ, w) and helper.normalize(w) == w)
 
 
-def kf_for_class(cls):
-    return {'dq': 'C03-escaped-dquote', 'ctrl': 'C03-url-control-char'}.get(cls, 'C03-backslash-sequence')
+def kf_for_class(cls, token='STRING'):
+    """known-finding id for a stored value of unsafe class `cls` held by a STRING / URI token or given to a setter"""
+    if cls == 'dq':
+        return 'C03-escaped-dquote'
+    if cls == 'ctrl':
+        return 'C03-url-control-char'
+    if token == 'setter':
+        return 'C03-raw-backslash-setter'
+    if token == 'URI' and cls == 'bsnl':
+        return 'C03-uri-line-continuation'
+    if token == 'URI' and cls == 'trail':
+        return 'C03-uri-trailing-backslash'
+    return 'C03-string-backslash-sequence'
 
 
 # ------------------------------------------------------------------------------------------------
